@@ -27,8 +27,17 @@
   successor in fiber_manager_do_maintenance on behalf of the current owner, which must be in
   `wPending`.
 
-  The model ACCEPTS what the code does — wake-one of a mixed list — so the lost wake-up
-  (F-C11) is a reachable state of this model (Props/C11.lean: `no_lost_wake_false`).
+  LIST DISCIPLINE (`St.two`, fixed at `init`, reported by the harness from the struct layout):
+    two = false  ONE mixed list `waiters` for blocked senders and receivers; every successful
+                 operation wakes its head — the code before /repo commit b18179b.  The model
+                 ACCEPTS what that code does, so its lost wake-up (F-C11) is a reachable state:
+                 Props/C11.lean `MultiChan.no_lost_wake_false`.
+    two = true   `waiters` holds blocked RECEIVERS, `send_waiters` blocked SENDERS; a send wakes
+                 the head of `waiters`, a receive the head of `send_waiters` — /repo HEAD.
+                 Props/C11.lean `MultiChan.no_lost_wake` (full statement).
+  Ghosts for the two-list proof: `wk` (which list the internal_wake in progress works on),
+  `pw` (a wake-up is owed by the operation that just changed `high`/`low`), `awR`/`awS` (the
+  receivers / senders that are awake and have not yet taken / put their message).
 -/
 import LibfiberVerif.Core.Sys
 import LibfiberVerif.Core.Event
@@ -82,6 +91,7 @@ inductive Ev
   | wHigh (f h : Nat) | wLow (f l : Nat)
   | rBuf (f i x : Nat) | wBuf (f i x : Nat)
   | rWaiters (f w : Nat) | wWaiters (f w : Nat)
+  | rSWaiters (f w : Nat) | wSWaiters (f w : Nat)       -- the `send_waiters` list head (two-list code)
   | rScratch (f g x : Nat) | wScratch (f g x : Nat)
   | wStateWaiting (f : Nat)
   | wStateReady (f g : Nat)
@@ -89,6 +99,8 @@ inductive Ev
 
 structure St where
   cap : Nat
+  /-- list discipline: false = one mixed waiter list, true = receivers' and senders' lists -/
+  two : Bool
   /-- abstract mutex -/
   lock : Option Nat
   counter : Int
@@ -98,14 +110,25 @@ structure St where
   low : Nat
   buf : Nat → Nat
   waiters : Nat
+  /-- head of `send_waiters` (two-list code only) -/
+  swaiters : Nat
   scr : Nat → Nat
   pc : Nat → Pc
   /-- `woken f`: an internal_wake made f READY since it last fell asleep -/
   woken : Nat → Bool
   /-- ghost: fibers that ever called an operation (so quiescence is a finite check) -/
   fibers : List Nat
-  /-- ghost: the waiter list, head first -/
+  /-- ghost: the waiter list `waiters`, head first -/
   wl : List Nat
+  /-- ghost: the list `send_waiters`, head first -/
+  swl : List Nat
+  /-- ghost: the internal_wake in progress works on `send_waiters` (it follows a receive) -/
+  wk : Bool
+  /-- ghost: the operation that just advanced `high`/`low` still owes its internal_wake -/
+  pw : Bool
+  /-- ghost: receivers / senders that are awake and have not yet taken / put their message -/
+  awR : List Nat
+  awS : List Nat
   /-- ghost: the fiber an internal_wake has unlinked and not yet made READY -/
   waking : Option Nat
   /-- ghost: a sender / a receiver has blocked at least once -/
@@ -116,10 +139,11 @@ structure St where
   recvd : List Nat
   calls : Nat → List Nat
 
-def init (cap : Nat) : St :=
-  { cap := cap, lock := none, counter := 1, handoffBy := none, high := 0, low := 0,
-    buf := fun _ => 0, waiters := 0, scr := fun _ => 0, pc := fun _ => .idle,
-    woken := fun _ => false, fibers := [], wl := [], waking := none, everS := false, everR := false,
+def init (two : Bool) (cap : Nat) : St :=
+  { cap := cap, two := two, lock := none, counter := 1, handoffBy := none, high := 0, low := 0,
+    buf := fun _ => 0, waiters := 0, swaiters := 0, scr := fun _ => 0, pc := fun _ => .idle,
+    woken := fun _ => false, fibers := [], wl := [], swl := [], wk := false, pw := false,
+    awR := [], awS := [], waking := none, everS := false, everR := false,
     sent := [], recvd := [], calls := fun _ => [] }
 
 def addFiber (l : List Nat) (f : Nat) : List Nat := if l.contains f then l else l ++ [f]
@@ -133,11 +157,11 @@ def step (s : St) : Ev → Option St
   | .callSend f v =>
     if s.pc f = .idle ∧ v ≠ 0 ∧ f ≠ 0 then
       some { s with fibers := addFiber s.fibers f, calls := upd s.calls f (s.calls f ++ [v]),
-                    pc := upd s.pc f (.lock (.send v)) }
+                    awS := f :: s.awS, pc := upd s.pc f (.lock (.send v)) }
     else none
   | .callRecv f =>
     if s.pc f = .idle ∧ f ≠ 0 then
-      some { s with fibers := addFiber s.fibers f, pc := upd s.pc f (.lock .recv) }
+      some { s with fibers := addFiber s.fibers f, awR := f :: s.awR, pc := upd s.pc f (.lock .recv) }
     else none
   | .retSend f =>
     match s.pc f with
@@ -212,11 +236,29 @@ def step (s : St) : Ev → Option St
     if w ≠ s.waiters then none else
     match s.pc f with
     | .gotLow (.send v) h l =>
-      if ¬ (h - l < s.cap) then some { s with everS := true, pc := upd s.pc f (.wGot (.send v) w) } else none
+      -- a blocked sender reads `waiters` only in the one-list code
+      if ¬ (h - l < s.cap) ∧ s.two = false then
+        some { s with everS := true, awS := s.awS.erase f, pc := upd s.pc f (.wGot (.send v) w) }
+      else none
     | .gotLow .recv h l =>
-      if ¬ (h > l) then some { s with everR := true, pc := upd s.pc f (.wGot .recv w) } else none
+      if ¬ (h > l) then some { s with everR := true, awR := s.awR.erase f, pc := upd s.pc f (.wGot .recv w) } else none
     | .kTop res =>
-      if w = 0 then some { s with pc := upd s.pc f (.unlock res) }
+      -- two-list code: only the internal_wake after a SEND looks at `waiters`
+      if s.two = true ∧ s.wk = true then none else
+      if w = 0 then some { s with pw := false, pc := upd s.pc f (.unlock res) }
+      else some { s with pc := upd s.pc f (.kGot res w) }
+    | _ => none
+  | .rSWaiters f w =>
+    if w ≠ s.swaiters ∨ s.two = false then none else
+    match s.pc f with
+    | .gotLow (.send v) h l =>
+      if ¬ (h - l < s.cap) then
+        some { s with everS := true, awS := s.awS.erase f, pc := upd s.pc f (.wGot (.send v) w) }
+      else none
+    | .kTop res =>
+      -- only the internal_wake after a RECEIVE looks at `send_waiters`
+      if s.wk = false then none else
+      if w = 0 then some { s with pw := false, pc := upd s.pc f (.unlock res) }
       else some { s with pc := upd s.pc f (.kGot res w) }
     | _ => none
   | .wScratch f g x =>
@@ -226,9 +268,23 @@ def step (s : St) : Ev → Option St
     | _ => none
   | .wWaiters f w =>
     match s.pc f with
-    | .wLinked o => if w = f then some { s with waiters := f, wl := f :: s.wl, pc := upd s.pc f (.wListed o) } else none
+    | .wLinked o =>
+      if w = f ∧ (s.two = true → o = .recv) then
+        some { s with waiters := f, wl := f :: s.wl, pc := upd s.pc f (.wListed o) }
+      else none
     | .kNext res g x =>
-      if w = x then some { s with waiters := x, wl := s.wl.drop 1, waking := some g, pc := upd s.pc f (.kUnl res g) }
+      if w = x ∧ ¬ (s.two = true ∧ s.wk = true) then
+        some { s with waiters := x, wl := s.wl.drop 1, waking := some g, pc := upd s.pc f (.kUnl res g) }
+      else none
+    | _ => none
+  | .wSWaiters f w =>
+    if s.two = false then none else
+    match s.pc f with
+    | .wLinked (.send v) =>
+      if w = f then some { s with swaiters := f, swl := f :: s.swl, pc := upd s.pc f (.wListed (.send v)) } else none
+    | .kNext res g x =>
+      if w = x ∧ s.wk = true then
+        some { s with swaiters := x, swl := s.swl.drop 1, waking := some g, pc := upd s.pc f (.kUnl res g) }
       else none
     | _ => none
   | .wStateWaiting f =>
@@ -245,7 +301,10 @@ def step (s : St) : Ev → Option St
   | .wHigh f h =>
     match s.pc f with
     | .sWrote v h' =>
-      if h = h' + 1 then some { s with high := h, sent := s.sent ++ [(f, v)], pc := upd s.pc f (.kTop 0) } else none
+      if h = h' + 1 then
+        some { s with high := h, sent := s.sent ++ [(f, v)], awS := s.awS.erase f, pw := true, wk := false,
+                      pc := upd s.pc f (.kTop 0) }
+      else none
     | _ => none
   | .rBuf f i x =>
     match s.pc f with
@@ -255,7 +314,10 @@ def step (s : St) : Ev → Option St
   | .wLow f l =>
     match s.pc f with
     | .rCleared l' m =>
-      if l = l' + 1 then some { s with low := l, recvd := s.recvd ++ [m], pc := upd s.pc f (.kTop m) } else none
+      if l = l' + 1 then
+        some { s with low := l, recvd := s.recvd ++ [m], awR := s.awR.erase f, pw := true, wk := true,
+                      pc := upd s.pc f (.kTop m) }
+      else none
     | _ => none
   | .rScratch f g x =>
     match s.pc f with
@@ -264,11 +326,20 @@ def step (s : St) : Ev → Option St
   | .wStateReady f g =>
     match s.pc f with
     | .kClr res w =>
-      if g = w then some { s with woken := upd s.woken w true, waking := none, pc := upd s.pc f (.unlock res) }
+      if g = w then
+        -- the woken fiber is awake again (and has still to take / put its message)
+        match s.pc w with
+        | .wAsleep .recv =>
+          some { s with woken := upd s.woken w true, waking := none, pw := false, awR := w :: s.awR,
+                        pc := upd s.pc f (.unlock res) }
+        | .wAsleep (.send _) =>
+          some { s with woken := upd s.woken w true, waking := none, pw := false, awS := w :: s.awS,
+                        pc := upd s.pc f (.unlock res) }
+        | _ => none
       else none
     | _ => none
 
-def sys (cap : Nat) : Sys St Ev := { init := init cap, step := step }
+def sys (two : Bool) (cap : Nat) : Sys St Ev := { init := init two cap, step := step }
 
 /-! ### quiescence, sleepers (the vocabulary of `no_lost_wake`) -/
 
@@ -340,6 +411,8 @@ def ofRaw (r : RawEv) : Option (Option Ev) :=
   | "w", ["low", v] => v.toNat?.map (fun v => some (.wLow f v))
   | "r", ["waiters", v] => (fibOrNull v).map (fun w => some (.rWaiters f w))
   | "w", ["waiters", v] => (fibOrNull v).map (fun w => some (.wWaiters f w))
+  | "r", ["send_waiters", v] => (fibOrNull v).map (fun w => some (.rSWaiters f w))
+  | "w", ["send_waiters", v] => (fibOrNull v).map (fun w => some (.wSWaiters f w))
   | k, [c, v] =>
     match bufIdx c, cellFiber c "scratch", cellFiber c "state" with
     | some i, _, _ => v.toNat?.bind fun x =>
@@ -353,19 +426,24 @@ def ofRaw (r : RawEv) : Option (Option Ev) :=
     | _, _, _ => none
   | _, _ => none
 
+/-- `init multichan <size> <number of waiter lists>` -/
 def capOf : List String → Nat
-  | ["multichan", c] => c.toNat?.getD 0
+  | "multichan" :: c :: _ => c.toNat?.getD 0
   | _ => 0
 
+def twoOf : List String → Bool
+  | ["multichan", _, n] => n = "2"
+  | _ => false
+
 /-- model state after the whole log (`none` if the model rejects some event) -/
-def finalState (cap : Nat) (lines : List String) : Option St :=
+def finalState (two : Bool) (cap : Nat) (lines : List String) : Option St :=
   lines.foldl (fun acc l =>
     match acc with
     | none => none
     | some s =>
       match (parseLine l).bind ofRaw with
       | some (some e) => step s e
-      | _ => some s) (some (init cap))
+      | _ => some s) (some (init two cap))
 
 def opName : Option Op → String
   | some (.send v) => s!"sender(of {v})"
@@ -374,28 +452,29 @@ def opName : Option Op → String
 
 /-- the hang oracle, evaluated on the model state the log ends in: a run that did not
     complete and ended with nobody active and a fiber asleep that could proceed is a LOST
-    WAKE-UP; `lostwake-mixed` = blocked senders and blocked receivers shared the one waiter
-    list in this run (the F-C11 pattern), `lostwake-pure` = they never did (anything else) -/
+    WAKE-UP; `lostwake-mixed` = one-list code and blocked senders and blocked receivers shared
+    the list in this run (the F-C11 pattern), `lostwake-pure` = anything else -/
 def hangOracle (s : St) : Option String :=
   if quiescent s then
     match s.fibers.find? (stranded s) with
     | some f =>
-      let kind := if s.everS && s.everR then "lostwake-mixed" else "lostwake-pure"
-      some s!"{kind}: nobody active, {opName (s.pc f).asleepOp} fiber {f} asleep with {s.high - s.low} of {s.cap} slots used; waiter list {s.wl}"
+      let kind := if s.two == false && s.everS && s.everR then "lostwake-mixed" else "lostwake-pure"
+      some s!"{kind}: nobody active, {opName (s.pc f).asleepOp} fiber {f} asleep with {s.high - s.low} of {s.cap} slots used; waiter lists {s.wl} {s.swl}"
     | none => if s.fibers.any (sleeping s) then some "asleep-unservable: sleepers left that no peer can serve (script not matched?)" else none
   else some "stuck-active: the run stopped while some fiber was still active"
 
 def drive (lines : List String) : IO UInt32 := do
   let cap := capOf (initArgs lines)
+  let two := twoOf (initArgs lines)
   let body := lines.filter (fun l => !isInit l)
-  let v := validateP (sys cap) ofRaw body
+  let v := validateP (sys two cap) ofRaw body
   let complete := Chan.allReturned body
   -- FIFO: the ring is served in `high` order under one lock, so the order is total
   let cfg : QueueHist.Cfg :=
     { disc := .fifo, capacity := cap, drained := complete, checkEmpty := false }
   let mon := match Chan.fiberQueueMonitor cfg body with
     | some m => some m
-    | none => if complete then none else (finalState cap body).bind hangOracle
+    | none => if complete then none else (finalState two cap body).bind hangOracle
   report "MultiChan" v mon
 
 end LibfiberVerif.MultiChan
